@@ -33,7 +33,8 @@ ASSUMPTIONS = ["pvm/ref/ofwire.py states the OpenFlow 1.0.0 layouts correctly",
                "field against an independent specification"]
 REQUIRED = ["objects", "layout_compared", "roundtrips", "table_dispatch",
             "action_lists", "stats_bodies", "nicira_objects",
-            "nx_layouts_checked", "earlier_objects_rechecked"]
+            "nx_layouts_checked", "earlier_objects_rechecked",
+            "objects_reused_with_new_payload"]
 TIMEOUT = {"quick": 900, "thorough": 7200}
 
 # wildcard bit constants (OpenFlow 1.0 spec)
@@ -101,6 +102,9 @@ _earlier = {}
 
 
 def check_message (ctx, m, rng):
+  # (noted before anything reads the object: a packet_in built without
+  #  total_len derives it from its data)
+  had_explicit_len = getattr(m, "_total_len", None) is not None
   import pox.openflow.libopenflow_01 as of
   from pox.openflow.util import make_type_to_unpacker_table
   cname = type(m).__name__
@@ -189,6 +193,33 @@ def check_message (ctx, m, rng):
                "at byte %d: %s vs %s" % (i, hexs(b3[max(0, i - 4):i + 12]),
                                          hexs(ob[max(0, i - 4):i + 12])))
   if b2 is not None: _earlier[cname] = (b, o2)
+  # the same object used again with another payload: what it encodes must
+  # follow its fields as they are now (nothing derived from the old payload
+  # may linger)
+  try:
+    attr = "data" if isinstance(getattr(m, "data", None), bytes) else \
+        "body" if isinstance(getattr(m, "body", None), bytes) else None
+    explicit_len = had_explicit_len
+    if attr is not None and not explicit_len and len(b) < 60000 \
+       and len(getattr(m, attr)) > 0:
+      old_payload = getattr(m, attr)
+      for new_payload in (old_payload + b"\x5a" * 5, old_payload[:len(old_payload) // 2]):
+        setattr(m, attr, new_payload)
+        ctx.rep.count("objects_reused_with_new_payload")
+        b4 = safe_pack(ctx, m, cname + " (payload replaced)")
+        if b4 is None: break
+        name, fields = ofgen.message_fields(m)
+        exp = ofwire.enc_message(name, fields)
+        if b4 != exp:
+          i = first_diff(b4, exp)
+          ctx.fire(cname, "object reused with another payload encodes stale values",
+                   "at byte %d: got %s, spec %s" %
+                   (i, hexs(b4[max(0, i - 4):i + 12]), hexs(exp[max(0, i - 4):i + 12])))
+          break
+      setattr(m, attr, old_payload)
+  except Exception as e:
+    ctx.fire(cname, "object reuse check failed (%s)" % type(e).__name__,
+             traceback.format_exc()[-300:])
   # dispatch through the table both connection classes use
   try:
     table = make_type_to_unpacker_table()
